@@ -633,6 +633,14 @@ impl<T: FftNum> FftPlannerSse<T> {
     }
 }
 
+#[cfg(rustfft_verif)]
+impl<T: FftNum> FftPlannerSse<T> {
+    /// Verification hook: Debug text of the recipe designed for `len`
+    pub fn verif_recipe(&mut self, len: usize) -> String {
+        format!("{:?}", self.design_fft_for_len(len))
+    }
+}
+
 #[cfg(test)]
 mod unit_tests {
     use super::*;
